@@ -152,7 +152,7 @@ fn run(r: &mut Report, seed: u64, idx: u64) {
     }
     let (synced, log, sizes_ok): (HashSet<u64>, Vec<OpRec>, bool) = {
         let st = fs.lock();
-        (synced_vids(&st, b'\n'), st.log.clone(), bad_pieces(&st, b'\n').is_empty())
+        (synced_vids(&st, b'\n'), st.log.clone(), bad_pieces(&st, b'\n', false).is_empty())
     };
     if !sizes_ok {
         r.violation("C10:e2e:record-mangled:after-stall", "a file holds a piece that is not a complete record after the stalled run", case());
